@@ -12,6 +12,7 @@ From PowHsm Require Import Proofs.SrcEquivProtoM.
 From PowHsm Require Import Proofs.SrcEquivBringupM.
 From PowHsm Require Import Proofs.SrcEquivProtoV1M.
 From PowHsm Require Import Proofs.SrcEquivStateM.
+From PowHsm Require Import Proofs.SrcEquivHeartbeatM.
 Open Scope N_scope.
 
 (* closed check on the generated except-ladders: every v5 handler maps a link error to (flag set, device error) and a timeout to (flag untouched, device error) *)
@@ -253,5 +254,25 @@ Theorem C11_source_blockchain_state_handler_is_model :
          srcm_HSM2ProtocolLedger___blockchain_state init self request w =
          mres rtuple_pv (op_blockchain_state kind req w).
 Proof. exact (@srcm_blockchain_state_handler_ok). Qed.
+
+(* _signer_heartbeat as translated = model handler: a link error at any of its exchanges sets the flag and answers the device code *)
+Theorem C11_source_signer_heartbeat_handler_is_model :
+  forall (kind : dongle_kind) (init : pm pv) (self : pv) (req : obj) 
+           (ud_hex : str) (w : world),
+         init_ok kind init ->
+         jget (s "udValue") req = Some (JStr ud_hex) ->
+         srcm_HSM2ProtocolLedger___signer_heartbeat init self (of_obj req) w =
+         mres rtuple_pv (op_signer_heartbeat kind req w).
+Proof. exact (@srcm_signer_heartbeat_handler_ok). Qed.
+
+(* _ui_heartbeat likewise, with the tolerated link errors of its two exits *)
+Theorem C11_source_ui_heartbeat_handler_is_model :
+  forall (kind : dongle_kind) (init : pm pv) (self : pv) (req : obj) 
+           (ud_hex : str) (w : world),
+         init_ok kind init ->
+         jget (s "udValue") req = Some (JStr ud_hex) ->
+         srcm_HSM2ProtocolLedger___ui_heartbeat init self (of_obj req) w =
+         mres rtuple_pv (op_ui_heartbeat kind req w).
+Proof. exact (@srcm_ui_heartbeat_handler_ok). Qed.
 
 Example C11_nonvacuous : True. Proof. exact I. Qed. (* concrete three-request lifetimes closed by vm_compute in Proofs/C11.v, Module Examples *)
